@@ -26,6 +26,7 @@ type relLiteral struct {
 	ID          *ssa.Store
 	Type        string // constant type, "" if not constant
 	Target      ssa.Value
+	TargetSym   symString // specialised copy: the target read from a field of a package-level descriptor, as a constant
 	TargetSt    *ssa.Store
 	TypeVal     ssa.Value           // the value stored as the type (constant or not)
 	Home        *ssa.Function       // the function that contains the stores (== Fn unless specialised)
@@ -150,7 +151,14 @@ func specialiseRelLiterals(p *Program, lits []*relLiteral) []*relLiteral {
 		}
 		idPar, _ := rl.ID.Val.(*ssa.Parameter)
 		tgtPar, _ := rl.Target.(*ssa.Parameter)
-		if typePar == nil && idPar == nil && tgtPar == nil {
+		var tgtDescPar *ssa.Parameter
+		tgtField := -1
+		if tgtPar == nil && rl.Target != nil {
+			if par, fi := paramFieldOf(rl.Target); par != nil && fi >= 0 && par.Parent() == h {
+				tgtDescPar, tgtField = par, fi
+			}
+		}
+		if typePar == nil && idPar == nil && tgtPar == nil && tgtDescPar == nil {
 			continue
 		}
 		if rl.Type == "" && typePar == nil {
@@ -203,6 +211,13 @@ func specialiseRelLiterals(p *Program, lits []*relLiteral) []*relLiteral {
 				if tgtPar != nil {
 					if pi := paramIndex(h, tgtPar); pi < len(args) {
 						cp.Target = args[pi]
+					}
+				}
+				if tgtDescPar != nil {
+					if pi := paramIndex(h, tgtDescPar); pi < len(args) {
+						if t, ok := constOrGlobalField(p, args[pi], tgtField); ok {
+							cp.TargetSym = symString{{Const: t}}
+						}
 					}
 				}
 				out = append(out, &cp)
@@ -570,9 +585,22 @@ func collectPartStores(p *Program) []partStore {
 		for _, ps := range out {
 			top := topLevel(ps.Fn)
 			var par *ssa.Parameter
+			descField := -1
+			var descSym ssa.Value
 			for _, part := range ps.Key {
 				if q, ok := part.Sym.(*ssa.Parameter); ok && q.Parent() == top {
 					par = q
+				}
+			}
+			if par == nil {
+				// a field of a part descriptor handed in by value or by pointer (info.partName)
+				for _, part := range ps.Key {
+					if part.Sym == nil {
+						continue
+					}
+					if q, fi := paramFieldOf(part.Sym); q != nil && fi >= 0 && q.Parent() == top {
+						par, descField, descSym = q, fi, part.Sym
+					}
 				}
 			}
 			if par == nil || len(callers[top]) == 0 {
@@ -581,6 +609,36 @@ func collectPartStores(p *Program) []partStore {
 			}
 			pi := paramIndex(top, par)
 			did := false
+			if descField >= 0 {
+				for _, caller := range sortedFuncs(callers[top]) {
+					allInstrs(caller, func(in ssa.Instruction) {
+						c, ok := in.(ssa.CallInstruction)
+						if !ok || staticCallee(c) != top || pi >= len(c.Common().Args) {
+							return
+						}
+						a := c.Common().Args[pi]
+						var key symString
+						if cs, ok := constOrGlobalField(p, a, descField); ok {
+							for _, part := range ps.Key {
+								if part.Sym == descSym {
+									key = append(key, symPart{Const: cs})
+								} else {
+									key = append(key, part)
+								}
+							}
+							next = append(next, partStore{caller, key.norm(), ps.MU})
+							did = true
+							return
+						}
+					})
+				}
+				if did {
+					expanded = true
+				} else {
+					next = append(next, ps)
+				}
+				continue
+			}
 			for _, caller := range sortedFuncs(callers[top]) {
 				allInstrs(caller, func(in ssa.Instruction) {
 					c, ok := in.(ssa.CallInstruction)
@@ -681,7 +739,11 @@ func relAttach(r *Run, kinds map[string]bool, min int) {
 		if rl.Target == nil {
 			continue
 		}
-		want := prefixed(own.base, symOf(rl.Target))
+		tsym := symOf(rl.Target)
+		if rl.TargetSym != nil {
+			tsym = rl.TargetSym
+		}
+		want := prefixed(own.base, tsym)
 		found := false
 		var where string
 		for _, ps := range parts {
@@ -695,7 +757,7 @@ func relAttach(r *Run, kinds map[string]bool, min int) {
 			}
 		}
 		r.Check("rel-attach-target", key, rl.TargetSt.Pos(), found,
-			fmt.Sprintf("relationship target %q resolved against %q must name a part the library stores: want part key %q; found=%v %s", symOf(rl.Target).String(), own.base, want.String(), found, where))
+			fmt.Sprintf("relationship target %q resolved against %q must name a part the library stores: want part key %q; found=%v %s", tsym.String(), own.base, want.String(), found, where))
 	}
 	r.Min("typed_relationship_literals", n, min)
 }
